@@ -359,6 +359,9 @@ def obligations(tier):
     obs.append(BoundedOb(f"{PID}/bounded/native survey: zero budgets, absorbed weights and fixed modes on the real entry points", "tensorly.decomposition:parafac+non_negative_parafac+non_negative_parafac_hals+constrained_parafac+tucker+non_negative_tucker_hals",
                          lambda: e2e_native.c14(tier), dict(orders="2-3 (4 thorough)", weights="unit, positive, negative, mixed, none", fixed_modes="every subset without the last mode; Tucker: every subset"),
                          "seed 0; tolerances 1e-9 (zero budget) / 1e-7 (absorbed weights); fixed factors bit-identical; the last mode of the CP routines is the known finding and is not fixed here", pid=PID))
+    # ---- the class wrappers hand a user initialisation and the fixed modes to the functions proved above
+    from . import wrappers as _W
+    obs.extend(_W.obligations(PID, select=("CP", "CP_NN", "CP_NN_HALS", "ConstrainedCP", "Tucker", "Tucker_NN_HALS", "Parafac2"), only=("init", "fixed_modes", "fixed_factors", "n_iter_max")))
     return obs
 
 
